@@ -857,7 +857,7 @@ func runC12(w *W) {
 	r := w.rng("c12arr")
 	nArr := 3000
 	if th {
-		nArr = 60000
+		nArr = 400000
 	}
 	for k := 0; k < nArr; k++ {
 		rr := r.Split()
@@ -892,7 +892,7 @@ func runC12(w *W) {
 	// structured documents with objects: unique keys (filters) and duplicate keys (FindKey)
 	nDoc := 2500
 	if th {
-		nDoc = 50000
+		nDoc = 250000
 	}
 	for k := 0; k < nDoc; k++ {
 		rr := r.Split()
